@@ -68,9 +68,9 @@ Print Assumptions C20_accumulate_refuted.
 
 (* ---- non-vacuity: a three-class acyclic table satisfies every hypothesis ---- *)
 Definition E3 : ctab :=
-  [("In", [mkfld "a" TInt false (Some (JInt 1))]);
-   ("Mid", [mkfld "i" (TClass "In") true None; mkfld "$ref" (TList (TClass "In")) false None]);
-   ("Top", [mkfld "m" (TUnion [TClass "Mid"; TNone]) false (Some JNull); mkfld "t" (TTuple [TClass "In"; TStr]) true None])].
+  [("In", [mkfld "a" TInt false (Some (JInt 1)) None]);
+   ("Mid", [mkfld "i" (TClass "In") true None (Some "d"); mkfld "$ref" (TList (TClass "In")) false None None]);
+   ("Top", [mkfld "m" (TUnion [TClass "Mid"; TNone]) false (Some JNull) None; mkfld "t" (TTuple [TClass "In"; TStr]) true None None])].
 Definition rk3 (c: string) : nat :=
   if String.eqb c "In" then 0 else if String.eqb c "Mid" then 1 else 2.
 
@@ -176,3 +176,93 @@ Example C20_meta_rejects_empty_schema_arrays :
   meta_ok (JObj [("uniqueItems", JStr "true")]) = false /\
   meta_ok (JObj [("minItems", JInt (-1))]) = false.
 Proof. repeat split; reflexivity. Qed.
+
+(* ---- the schema document survives JSONSchema.from_dict(.).to_dict() unchanged: [norm] models that composition
+        (field order of the JSONSchema dataclass, $-aliases, omit_none, const/default sentinels, unknown keys dropped);
+        every output and every collected definition of every sequence of builds is a fixed point ---- *)
+From Verif Require Import SchemaRoundtrip.
+
+Theorem C20_model_roundtrip : forall E cfg fuel ts st ds st',
+  tab_nodup E ->
+  build_seq E cfg fuel ts st = SOk (ds, st') -> defs_nf st ->
+  defs_nf st' /\ Forall (fun d => norm d = NOk d) ds.
+Proof. exact roundtrip_seq. Qed.
+Print Assumptions C20_model_roundtrip.
+
+Theorem C20_model_roundtrip_single : forall E cfg fuel wd uri t st d st',
+  tab_nodup E ->
+  build E cfg fuel wd uri t st = SOk (d, st') -> defs_nf st ->
+  defs_nf st' /\ norm d = NOk d.
+Proof. exact roundtrip_build. Qed.
+Print Assumptions C20_model_roundtrip_single.
+
+Example C20_roundtrip_nonvacuous :
+  (exists ds st', build_seq E3 (mkcfg true "#/x") 3 [TClass "Top"; TNamed true ["a"] [TInt] [Some (JInt 0)]] [] = SOk (ds, st')
+                  /\ Forall (fun d => norm d = NOk d) ds /\ List.length st' = 3%nat) /\
+  norm (JObj [("default", JStr ""); ("const", JBool false); ("x-unknown", JInt 1); ("title", JNull)])
+    = NOk (JObj [("const", JBool false); ("default", JStr "")]) /\
+  norm (JObj [("type", JStr "strin")]) = NErr.
+Proof.
+  split; [|split; reflexivity].
+  eexists _, _. split; [vm_compute; reflexivity|]. split; [|reflexivity].
+  repeat constructor.
+Qed.
+
+(* ---- Instance.fields() / Instance.alias as a function of the fields as written (anchor: field iteration) ---- *)
+Theorem C20_fields_digest : forall al om dial conf l f,
+  In f (digest_fields al om dial conf l) ->
+  exists r, In r l /\ r_init r = true /\ digest_field al om dial conf r = Some f /\ f_ty f = resolve_field dial conf r /\
+            f_req f = (match r_def r with RNone => negb (om && nullable_ty (r_ty r)) | _ => false end) /\
+            (f_default f <> None <-> exists v, r_def r = RDefault v).
+Proof. exact digest_fields_spec. Qed.
+Print Assumptions C20_fields_digest.
+
+(* the new constructs (leaf formats, Enum / Literal, TypedDict with sorted required keys, description, alias resolution,
+   init=False) in one run: total, closed, well formed and a round-trip fixed point *)
+Definition ER : list (string * rcls) :=
+  [("Leafy", mkrcls [("u", "cfg_u")] (Some true) (Some false) [] []
+      [mkrfld "when" None None (TLeaf "string" (Some "date-time") None) false true RNone (Some "when it happened") None None;
+       mkrfld "u" None None (TLeaf "string" (Some "uuid") None) false true (RDefault (JStr "0")) None None None;
+       mkrfld "a2" None (Some "ann2") TBool false true (RDefault (JBool false)) None None None;
+       mkrfld "opt" None None (TUnion [TInt; TNone]) true true RNone None None None;
+       mkrfld "hidden" None None TInt false false (RDefault (JInt 1)) None None None;
+       mkrfld "e" (Some "") (Some "ann") (TEnum false [JStr "a"; JInt 2]) false true RFactory (Some "") None None;
+       mkrfld "l" (Some "meta") (Some "ann") (TEnum true [JInt 0]) false true (RDefault (JInt 0)) None None None;
+       mkrfld "td" None None (TTyped ["b"; "a"; "c"] [TInt; TClass "Other"; TStr] [true; true; false]) false true RFactory None None None]);
+   ("Other", mkrcls [] None None [] [] [mkrfld "z" None None TInt false true RNone None None None])].
+
+Example C20_new_constructs_nonvacuous :
+  keys (match lookup "Leafy" (digest_tab ER) with Some fs => map (fun f => (f_alias f, f_ty f)) fs | None => [] end)
+    = ["when"; "cfg_u"; "ann2"; "opt"; "e"; "meta"; "td"] /\
+  exists d st, build (digest_tab ER) (mkcfg true "#/$defs") 3 true None (TList (TClass "Leafy")) [] = SOk (d, st)
+               /\ meta_ok d = true /\ norm d = NOk d /\ refs d = ["#/$defs/Other"; "#/$defs/Leafy"] /\ keys st = ["Other"; "Leafy"].
+Proof.
+  split; [reflexivity|].
+  eexists _, _. split; [vm_compute; reflexivity|]. repeat split; vm_compute; reflexivity.
+Qed.
+
+(* ---- overridden serialization (on_type_with_overridden_serialization) as a rewriting of field types ---- *)
+Theorem C20_override_noop : forall t, resolve_ty [] [] t = t.
+Proof. exact resolve_ty_noop. Qed.
+Print Assumptions C20_override_noop.
+
+(* a type whose third-party classes are all covered by serializing strategies with supported replacements is supported *)
+Theorem C20_override_covered : forall dial conf t, covered dial conf t = true -> ty_ok (resolve_ty dial conf t) = true.
+Proof. exact covered_ok. Qed.
+Print Assumptions C20_override_covered.
+
+Definition EP : list (string * rcls) :=
+  [("Inv", mkrcls [] None None [("Pt", ORet (Some TInt)); ("int", ODeser)] [("int", ORet (Some TStr)); ("Pt", OPass)]
+      [mkrfld "p" None None (TOpaque "Pt") false true RNone None None None;
+       mkrfld "ps" None None (TList (TUnion [TOpaque "Pt"; TNone])) false true RFactory None None None;
+       mkrfld "n" None None (TDict TInt) false true RNone None None None;
+       mkrfld "q" None None (TOpaque "Pt") false true RNone None (Some (ORet None)) (Some (OBasic TStr));
+       mkrfld "r" None None TInt false true RNone None (Some OPass) (Some (ORet (Some TBool)))]);
+   ("Bare", mkrcls [] None None [] [] [mkrfld "p" None None (TOpaque "Pt") false true RNone None None None])].
+
+Example C20_override_nonvacuous :
+  (match lookup "Inv" (digest_tab EP) with Some fs => map f_ty fs | None => [] end)
+    = [TInt; TList (TUnion [TInt; TNone]); TDict TStr; TAny; TInt] /\
+  (exists s st, schema_fuel (digest_tab EP) (mkcfg false "#") 2 (TClass "Inv") [] = SOk (s, st) /\ meta_ok (render s) = true) /\
+  schema_fuel (digest_tab EP) (mkcfg false "#") 2 (TClass "Bare") [] = SErr.
+Proof. split; [reflexivity|]. split; [eexists _, _; split; [vm_compute; reflexivity|vm_compute; reflexivity]|reflexivity]. Qed.
